@@ -198,9 +198,9 @@ Fixpoint okh (h : hk) (s : sstate) (u : list rep) : bool :=
       | RPhasesFail => null u' && is_main s
       | RReqInherit => null u' && match s with SInh1 k => kmatch h k | _ => false end
       | RReqBashrcs => null u' && match s, h with SRc1, HPhase => true | _, _ => false end
-      | RIpc => match u', s, h with
-                | [RLine; RLine; RLine; RLine; RLine], SIpcW, HPhase => true
-                | _, _, _ => false
+      | RIpc => match s, h with
+                | SIpcW, HPhase => Nat.eqb (List.length u') 5   (* the five header lines; python reads them blindly *)
+                | _, _ => false
                 end
       | RReqSbx => null u' && match s with SSbx k => kmatch h k | _ => false end
       | _ => false
@@ -324,8 +324,6 @@ Proof.
       try (destruct h; try discriminate H; apply IH; assumption);
       try (rewrite andb_false_r in H; discriminate H);
       try (apply andb_true_iff in H as [_ H]; discriminate H).
-    destruct U as [|? [|? [|? [|? [|? [|]]]]]]; try discriminate H;
-      repeat match goal with x : rep |- _ => destruct x; try discriminate H end.
 Qed.
 
 Lemma okp_emit p k em s' out : forall u e,
@@ -348,7 +346,7 @@ Proof.
       * destruct (sync_only w); [exact H3|].
         apply andb_true_iff in H3 as [H3 H4]. rewrite (IHok _ _ H3 E N), (IHbad _ _ H4 E N). reflexivity.
   - apply andb_true_iff in H as [H1 H2]. rewrite (IHok _ _ H1 E N), (IHbad _ _ H2 E N). reflexivity.
-  - apply andb_true_iff in H as [H0 H]. rewrite H0. cbn [andb].
+  - apply andb_true_iff in H as [H0 H]. subst e. cbn [andb].
     destruct u as [|x u']; [discriminate|]. cbn [app]. apply IH; assumption.
   - apply andb_true_iff in H as [H1 H2]. rewrite H1. cbn [andb].
     unfold untag. rewrite map_app, map_map. cbn [fst]. rewrite map_id.
@@ -402,3 +400,591 @@ Proof.
 Qed.
 Lemma cmd_eqb_eq a b : cmd_eqb a b = true <-> a = b.
 Proof. split; [destruct a, b; cbn; try discriminate; reflexivity | intros <-; destruct a; reflexivity]. Qed.
+
+(* ------------------------------------------------------------------ frame lemmas *)
+Lemma view_frame c c' :
+  sh c' = sh c -> p2d c' = p2d c -> d2p c' = d2p c ->
+  pipe c' = pipe c /\ drained c' = drained c /\ undrained c' = undrained c.
+Proof. intros A B C. unfold pipe, drained, undrained. rewrite A, B, C. auto. Qed.
+
+Lemma view_write c x p o n :
+  let c' := mk p o (sh c) (p2d c ++ [x]) (d2p c) n in
+  exists ext, pipe c' = pipe c ++ ext /\ (drained c = SDead -> drained c' = SDead).
+Proof.
+  cbn zeta. unfold pipe, drained. cbn [sh p2d d2p]. rewrite drain_snoc.
+  destruct (drain (sh c) (p2d c)) as [[s o1] r] eqn:E. cbn [fst snd].
+  destruct r as [|r0 r].
+  - destruct x as [[cx ix] fx]. destruct (sreact s cx fx) as [[s2 out]|] eqn:E2; cbn [fst snd].
+    + exists (tag ix out). split; [rewrite app_assoc; reflexivity|].
+      intros ->. rewrite (sreact_none SDead cx fx eq_refl) in E2. discriminate.
+    + exists []. rewrite app_nil_r. auto.
+  - exists []. rewrite app_nil_r. auto.
+Qed.
+
+Lemma has_notice_app a b :
+  existsb isnotice (map fst (a ++ b)) = existsb isnotice (map fst a) || existsb isnotice (map fst (b : list (rep * option nat))).
+Proof. rewrite map_app, existsb_app. reflexivity. Qed.
+
+Definition is_reading (p : pstate) : bool :=
+  match p with PRead1 _ _ _ | PCons _ _ _ _ | PRd _ | PHand _ _ | PDie => true | _ => false end.
+
+Lemma py_read_frame c r ch c' :
+  py_read c r ch = Some c' ->
+  p2d c' = p2d c /\ d2p c' = d2p c /\ outs c' = outs c /\ nxt c' = nxt c
+  /\ (sh c' = sh c \/ sh c' = SDead) /\ is_reading (py c) = true.
+Proof.
+  unfold py_read. intro H.
+  repeat match type of H with
+         | context [match ?x with _ => _ end] => destruct x eqn:?; try discriminate H
+         end;
+    injection H as <-; cbn; auto 10.
+Qed.
+
+Lemma py_read_notice c r ch c' :
+  py_read c (Some r) ch = Some c' -> isnotice r = true -> py_over (py c') = true.
+Proof.
+  unfold py_read. intros H N. destruct r; try discriminate N;
+    destruct (py c); try discriminate H; injection H as <-; reflexivity.
+Qed.
+
+Lemma py_read_over c r ch c' :
+  py_read c r ch = Some c' -> py_over (py c) = true -> py_over (py c') = true.
+Proof.
+  unfold py_read. intros H O.
+  destruct (py c) eqn:E; try discriminate O; try (destruct p; discriminate O || (destruct r as [[]|]; discriminate H));
+    destruct r as [[]|]; try discriminate H; injection H as <-; reflexivity.
+Qed.
+
+(* ------------------------------------------------------------------ a disturbed session stays disturbed *)
+Lemma drained_dead_frame c c' :
+  p2d c' = p2d c -> (sh c' = sh c \/ sh c' = SDead) -> drained c = SDead -> drained c' = SDead.
+Proof.
+  intros B [A|A] D; unfold drained in *; rewrite B, A; [exact D|].
+  rewrite drain_stuck; reflexivity.
+Qed.
+
+Lemma disturbed_step c l c' : disturbed c -> stepf c l = Some c' -> disturbed c'.
+Proof.
+  intros D H. unfold disturbed in *. destruct l as [o|cm f|r ch| |e| | | |em|term]; cbn [stepf] in H.
+  - (* LCall *)
+    destruct (py c) eqn:Ep; try discriminate H. injection H as <-.
+    destruct (view_frame c (set_py c (PExec (prog_of o))) eq_refl eq_refl eq_refl) as (A & B & _).
+    rewrite A, B. destruct D as [D|[D|D]]; auto. discriminate D.
+  - (* LW *)
+    destruct (py c) as [| | |p| | | | |] eqn:Ep; try discriminate H.
+    + injection H as <-. right; left; reflexivity.
+    + destruct p as [| | | |c0 k| | | |]; try discriminate H.
+      destruct (cmd_eqb cm c0); [|discriminate H]. injection H as <-.
+      destruct (view_write c (cm, nxt c, f) (PExec k) (outs c) (S (nxt c))) as (ext & A & B).
+      destruct D as [D|[D|D]]; [left|discriminate D|right; right; auto].
+      rewrite A, has_notice_app, D. reflexivity.
+  - (* LR *)
+    destruct (d2p c) as [|[r' g] rest] eqn:Ed; [discriminate H|].
+    destruct (rep_eqb r r') eqn:Er; [|discriminate H]. apply rep_eqb_eq in Er. subst r'.
+    destruct (py c) eqn:Ep.
+    2: { injection H as <-. right; left; reflexivity. }
+    all: rewrite <- Ep in H.
+    all: set (c0 := mk (py c) (outs c) (sh c) (p2d c) rest (nxt c)) in H;
+      destruct (py_read_frame _ _ _ _ H) as (A & B & _ & _ & S & _); cbn [p2d d2p sh c0] in A, B, S.
+    all: destruct (isnotice r) eqn:N; [right; left; eapply py_read_notice; eassumption|].
+    all: destruct D as [D|[D|D]];
+      [ | right; left; eapply py_read_over; [exact H | cbn [py c0]; rewrite Ep; exact D]
+        | right; right; eapply drained_dead_frame; eassumption ].
+    all: unfold pipe in D; rewrite Ed in D; cbn [app map existsb fst] in D; rewrite N in D; cbn [orb] in D.
+    all: destruct S as [S|S];
+      [ left; unfold pipe; rewrite A, B, S; exact D
+      | right; right; unfold drained; rewrite S, drain_stuck; reflexivity ].
+  - (* LEof *)
+    destruct (d2p c) eqn:Ed; [|discriminate H]. destruct (sh c) eqn:Es; try discriminate H.
+    destruct (py c) eqn:Ep.
+    2: { injection H as <-. right; right. unfold drained. rewrite Es, drain_stuck; reflexivity. }
+    all: destruct (py_read_frame _ _ _ _ H) as (A & B & _ & _ & S & _);
+      right; right; unfold drained; destruct S as [S|S]; rewrite S, ?Es, drain_stuck; reflexivity.
+  - (* LEnd *)
+    destruct (py c) as [| | |p| | | | |] eqn:Ep; try discriminate H.
+    + injection H as <-. right; left. rewrite Ep. reflexivity.
+    + destruct p; try discriminate H.
+      * destruct e as [b'|]; [|discriminate H]. destruct (Bool.eqb b b'); [|discriminate H]. injection H as <-.
+        destruct alive.
+        -- destruct D as [D|[D|D]]; [left|discriminate D|right; right]; exact D.
+        -- right; left; reflexivity.
+      * destruct e; [discriminate H|]. injection H as <-.
+        destruct D as [D|[D|D]]; [left|discriminate D|right; right]; exact D.
+      * destruct e; [discriminate H|]. injection H as <-. right; left; reflexivity.
+      * destruct e; [discriminate H|]. injection H as <-. right; left; reflexivity.
+  - (* LTau *)
+    destruct (py c) as [| | |p| | | | |] eqn:Ep; try discriminate H.
+    destruct D as [D|[D|D]].
+    + left. destruct p; try discriminate H; try destruct async; try destruct (outs c); injection H as <-; exact D.
+    + destruct p; try discriminate H; discriminate D.
+    + right; right. destruct p; try discriminate H; try destruct async; try destruct (outs c); injection H as <-; exact D.
+  - (* LKill *)
+    destruct (py c); try discriminate H. injection H as <-. right; left; reflexivity.
+  - (* LShRead *)
+    destruct (view_shread c c' H) as (A & B & _ & P & _). rewrite A, B, P. exact D.
+  - (* LShEmit *)
+    destruct (semit (sh c) em) as [[s' out]|] eqn:E; [|discriminate H]. injection H as <-.
+    assert (Hs : sh_reads (sh c) = false)
+      by (rewrite semit_eq in E; destruct (sh c); try discriminate E; reflexivity).
+    destruct D as [D|[D|D]].
+    + left. unfold pipe in *. cbn [sh p2d d2p]. rewrite (drain_stuck _ _ Hs) in D. cbn [fst snd] in D.
+      rewrite app_nil_r in D. rewrite <- app_assoc, has_notice_app, D. reflexivity.
+    + right; left; exact D.
+    + unfold drained in D. rewrite (drain_stuck _ _ Hs) in D. cbn in D. rewrite D in Hs.
+      rewrite semit_eq in E. rewrite D in E. discriminate E.
+  - (* LShSig *)
+    destruct (signalable (sh c)); [|discriminate H]. injection H as <-.
+    right; right. unfold drained. cbn [sh p2d]. rewrite drain_stuck; reflexivity.
+Qed.
+
+(* ------------------------------------------------------------------ healthy sessions *)
+Lemma view_write_healthy c cm f p o n s' out :
+  undrained c = [] -> sreact (drained c) cm f = Some (s', out) ->
+  let c' := mk p o (sh c) (p2d c ++ [(cm, nxt c, f)]) (d2p c) n in
+  pipe c' = pipe c ++ tag (nxt c) out /\ drained c' = s' /\ undrained c' = [].
+Proof.
+  unfold undrained, drained, pipe. cbn [sh p2d d2p]. intros U E. rewrite drain_snoc.
+  destruct (drain (sh c) (p2d c)) as [[s o1] r]. cbn [fst snd] in *. subst r. rewrite E. cbn [fst snd].
+  rewrite app_assoc. auto.
+Qed.
+
+Lemma reply_for_answers w r i : reply_for w r = true -> answers (i, w) (r, Some i).
+Proof.
+  intro H. split; [reflexivity|]. cbn [fst snd].
+  destruct w; cbn [reply_for] in H; try (apply rep_eqb_eq in H; exact H).
+  apply orb_true_iff in H as [H|H]; apply rep_eqb_eq in H; auto.
+Qed.
+
+Lemma utags_tag n out : utags (S n) (tag n out).
+Proof. induction out; constructor; cbn; auto. Qed.
+Lemma utags_untag n out : utags n (untag out).
+Proof. induction out; constructor; cbn; auto. Qed.
+
+Lemma healthy_call c o c' : healthy c -> stepf c (LCall o) = Some c' -> healthy c'.
+Proof.
+  intros (U & R & u & P & F & T & O) H. cbn [stepf] in H.
+  destruct (py c) eqn:Ep; try discriminate H. injection H as <-.
+  cbn [okst] in O. destruct O as [Hs ->].
+  split; [exact U|]. exists R, []. unfold pend in *. rewrite Ep in F. cbn [set_py py outs nxt].
+  repeat split; try assumption.
+  exists false. split; [|discriminate]. change (drained (set_py c (PExec (prog_of o)))) with (drained c).
+  rewrite Hs. apply prog_of_ok.
+Qed.
+
+Lemma healthy_write c cm f c' : healthy c -> stepf c (LW cm f) = Some c' -> Inv c'.
+Proof.
+  intros (U & R & u & P & F & T & O) H. cbn [stepf] in H.
+  destruct (py c) as [| | |p| | | | |] eqn:Ep; try discriminate H; [destruct O|].
+  destruct p as [| | | |c0 k| | | |]; try discriminate H.
+  destruct (cmd_eqb cm c0) eqn:Ec; [|discriminate H]. apply cmd_eqb_eq in Ec. subst c0. injection H as <-.
+  cbn [okst] in O. destruct O as (e & O & He). cbn [okp] in O.
+  apply andb_true_iff in O as [O1 O2]. apply andb_true_iff in O1 as [Hu Hr].
+  destruct u; [|discriminate Hu]. rewrite app_nil_r in P.
+  destruct (sreact_some (drained c) cm f Hr) as (s' & out & E).
+  assert (O3 : existsb isnotice out || is_dead s' || okp k s' (tag 0 out) e = true).
+  { cbn [forallb] in O2.
+    rewrite <- (sreact_eq _ _ true), <- (sreact_eq _ _ false), andb_true_r in O2. apply andb_true_iff in O2 as [Oa Ob].
+    destruct f; [rewrite E in Oa; exact Oa | rewrite E in Ob; exact Ob]. }
+  destruct (view_write_healthy c cm f (PExec k) (outs c) (S (nxt c)) s' out U E) as (A & B & C).
+  apply orb_true_iff in O3 as [O3|O3]; [apply orb_true_iff in O3 as [O3|O3]|].
+  - left. left. rewrite A, has_notice_app. unfold tag. rewrite map_map. cbn [fst]. rewrite map_id, O3.
+    apply orb_true_r.
+  - left. right. right. rewrite B. destruct s'; try discriminate O3; reflexivity.
+  - right. split; [exact C|]. exists R, (tag (nxt c) out). rewrite A, P.
+    unfold pend in *. rewrite Ep in F. cbn [py outs nxt]. repeat split; try assumption.
+    + apply utags_tag.
+    + cbn [okst]. exists e. split; [|exact He]. rewrite B.
+      rewrite (okp_shape k s' _ _ e (tag_shape (nxt c) 0 out)). exact O3.
+Qed.
+
+Lemma healthy_tau c c' : healthy c -> stepf c LTau = Some c' -> healthy c'.
+Proof.
+  intros (U & R & u & P & F & T & O) H. cbn [stepf] in H.
+  destruct (py c) as [| | |p| | | | |] eqn:Ep; try discriminate H.
+  cbn [okst] in O. destruct O as (e & O & He). unfold pend in F. rewrite Ep, app_nil_r in F.
+  destruct p as [| | | | |w a kok kbad|kok kbad|k|h kt]; try discriminate H.
+  - (* Exp *)
+    cbn [okp] in O. destruct u as [|[r g] u']; [discriminate O|].
+    apply andb_true_iff in O as [O1 O2]. apply andb_true_iff in O1 as [Hr Hg].
+    assert (G : g = Some (pred (nxt c))).
+    { inversion T as [|? ? [G|G] _]; subst; cbn in G; [rewrite G in Hg; discriminate Hg | exact G]. }
+    assert (T' : utags (nxt c) u') by (inversion T; assumption).
+    assert (P' : pipe c = (R ++ [(r, g)]) ++ u') by (rewrite P, <- app_assoc; reflexivity).
+    assert (An : answers (pred (nxt c), w) (r, g)) by (rewrite G; apply reply_for_answers; exact Hr).
+    destruct a.
+    + injection H as <-. split; [exact U|]. exists (R ++ [(r, g)]), u'.
+      unfold pend. cbn [py outs nxt]. rewrite app_nil_r. refine (conj _ (conj _ (conj _ _))); try assumption.
+      * apply Forall2_app; [exact F | constructor; [exact An | constructor]].
+      * cbn [okst]. exists false. split; [exact O2 | discriminate].
+    + apply andb_true_iff in O2 as [O2 O3]. destruct (outs c) as [|o0 ol] eqn:Eo.
+      * injection H as <-. inversion F. subst R. split; [exact U|]. exists [(r, g)], u'.
+        unfold pend. cbn [py outs nxt set_py]. rewrite Eo. cbn [app].
+        refine (conj _ (conj _ (conj _ _))); try assumption.
+        -- constructor; [exact An | constructor].
+        -- cbn [okst]. split; [reflexivity|]. exists (r, g). split; [reflexivity|]. exact O2.
+      * injection H as <-. split; [exact U|]. exists (R ++ [(r, g)]), u'.
+        unfold pend. cbn [py outs nxt]. rewrite app_nil_r. refine (conj _ (conj _ (conj _ _))); try assumption.
+        -- exact (Forall2_app F (Forall2_cons _ _ An (Forall2_nil _))).
+        -- cbn [okst]. exists false. split; [|discriminate]. cbn [okp].
+           destruct (sync_only w); [subst e; discriminate (He eq_refl) | exact O3].
+  - (* Cons *)
+    cbn [okp] in O. apply andb_true_iff in O as [O1 O2]. destruct (outs c) as [|o0 ol] eqn:Eo.
+    + injection H as <-. split; [exact U|]. exists R, u. unfold pend. cbn [py outs nxt set_py].
+      rewrite Eo. refine (conj _ (conj _ (conj _ _))); try assumption. cbn [okst]. exists true. split; [exact O1 | reflexivity].
+    + injection H as <-. split; [exact U|]. exists R, u. unfold pend. cbn [py outs nxt app].
+      refine (conj _ (conj _ (conj _ _))); try assumption. cbn [okst]. refine (conj _ (conj _ (conj _ _))); try assumption; [reflexivity | discriminate].
+  - (* Rd *)
+    injection H as <-. split; [exact U|]. exists R, u. unfold pend. cbn [py outs nxt set_py].
+    rewrite app_nil_r. refine (conj _ (conj _ (conj _ _))); try assumption.
+    cbn [okst]. cbn [okp] in O. destruct e; [|discriminate O]. split; [exact (He eq_refl) | exact O].
+  - (* Handle *)
+    destruct (outs c) as [|o0 ol] eqn:Eo.
+    + injection H as <-. split; [exact U|]. exists R, u. unfold pend. cbn [py outs nxt set_py].
+      rewrite Eo. refine (conj _ (conj _ (conj _ _))); try assumption. cbn [okst].
+      cbn [okp] in O. apply andb_true_iff in O as [O1 O2]. auto.
+    + injection H as <-. split; [exact U|]. exists R, u. unfold pend. cbn [py outs nxt set_py].
+      rewrite Eo, app_nil_r. refine (conj _ (conj _ (conj _ _))); try assumption. cbn [okst]. exists false. split; [|discriminate].
+      cbn [okp] in *. rewrite andb_true_r. exact O.
+Qed.
+
+Lemma healthy_end c e c' : healthy c -> stepf c (LEnd e) = Some c' -> Inv c'.
+Proof.
+  intros (U & R & u & P & F & T & O) H. cbn [stepf] in H.
+  destruct (py c) as [| | |p| | | | |] eqn:Ep; try discriminate H; [destruct O|].
+  cbn [okst] in O. destruct O as (e0 & O & He). unfold pend in F. rewrite Ep in F.
+  destruct p; try discriminate H.
+  - destruct e as [b'|]; [|discriminate H]. destruct (Bool.eqb b b'); [|discriminate H]. injection H as <-.
+    destruct alive.
+    + right. cbn [okp] in O. apply andb_true_iff in O as [O1 O2].
+      split; [exact U|]. exists R, u. unfold pend. cbn [py outs nxt set_py]. refine (conj _ (conj _ (conj _ _))); try assumption.
+      cbn [okst]. change (drained (set_py c PIdle)) with (drained c).
+      destruct (drained c); try discriminate O1. destruct u; [auto | discriminate O2].
+    + left. right. left. reflexivity.
+  - destruct e; [discriminate H|]. injection H as <-. right.
+    cbn [okp] in O. apply andb_true_iff in O as [O1 O2].
+    split; [exact U|]. exists R, u. unfold pend. cbn [py outs nxt set_py]. refine (conj _ (conj _ (conj _ _))); try assumption.
+    cbn [okst]. change (drained (set_py c PIdle)) with (drained c).
+    destruct (drained c); try discriminate O1. destruct u; [auto | discriminate O2].
+  - destruct e; [discriminate H|]. injection H as <-. left. right. left. reflexivity.
+  - destruct e; [discriminate H|]. injection H as <-. left. right. left. reflexivity.
+Qed.
+
+Lemma map_fst_untag out : map fst (untag out) = out.
+Proof. unfold untag. rewrite map_map. cbn [fst]. apply map_id. Qed.
+
+Lemma okst_emit p o R k em s' out u :
+  okst p o R (SRun k) u -> semit' (SRun k) em = Some (s', out) -> existsb isnotice out = false ->
+  okst p o R s' (u ++ untag out).
+Proof.
+  intros O E N. destruct p as [| | |q|[i w] kok kbad|rem ok kok kbad|q|h kt|]; cbn [okst] in *; try contradiction.
+  - destruct O as [O _]. discriminate O.
+  - destruct O as (e & O & He). exists e. split; [|exact He]. eapply okp_emit; eassumption.
+  - destruct O as (Ho & x & -> & O). split; [exact Ho|]. exists x. split; [reflexivity|].
+    eapply okp_emit; eassumption.
+  - destruct O as (Ho & Hr & O1 & O2). repeat split; try assumption; eapply okp_emit; eassumption.
+  - destruct O as (Ho & O). split; [exact Ho|]. eapply (okp_emit (Rd q)); eassumption.
+  - destruct O as (Ho & O1 & O2). repeat split; try assumption.
+    rewrite map_app, map_fst_untag. eapply okh_emit; eassumption.
+Qed.
+
+Lemma healthy_emit c em c' : healthy c -> stepf c (LShEmit em) = Some c' -> Inv c'.
+Proof.
+  intros (U & R & u & P & F & T & O) H. cbn [stepf] in H.
+  destruct (semit (sh c) em) as [[s' out]|] eqn:E; [|discriminate H]. injection H as <-.
+  rewrite semit_eq in E.
+  assert (Hk : exists k, sh c = SRun k) by (destruct (sh c); try discriminate E; eauto).
+  destruct Hk as [k Hk].
+  assert (Hq : p2d c = []).
+  { unfold undrained in U. rewrite Hk, drain_stuck in U by reflexivity. exact U. }
+  assert (Hd : drained c = SRun k) by (unfold drained; rewrite Hk, Hq; reflexivity).
+  assert (Hp : pipe c = d2p c) by (unfold pipe; rewrite Hq; cbn; apply app_nil_r).
+  set (c' := mk (py c) (outs c) s' (p2d c) (d2p c ++ untag out) (nxt c)).
+  assert (Hp' : pipe c' = pipe c ++ untag out).
+  { unfold pipe at 1. cbn [c' sh p2d d2p]. rewrite Hq. cbn [drain fst snd]. rewrite app_nil_r, Hp. reflexivity. }
+  assert (Hd' : drained c' = s') by (unfold drained; cbn [c' sh p2d]; rewrite Hq; reflexivity).
+  assert (Hu' : undrained c' = []) by (unfold undrained; cbn [c' sh p2d]; rewrite Hq; reflexivity).
+  destruct (existsb isnotice out) eqn:N.
+  - left. left. rewrite Hp', has_notice_app, map_fst_untag, N. apply orb_true_r.
+  - right. split; [exact Hu'|]. exists R, (u ++ untag out). rewrite Hp', P, app_assoc.
+    refine (conj eq_refl (conj F (conj _ _))).
+    + apply Forall_app. split; [exact T | apply utags_untag].
+    + rewrite Hd'. rewrite Hd, Hk in *. cbn [c' py outs]. eapply okst_emit; eassumption.
+Qed.
+
+Lemma healthy_shread c c' : healthy c -> stepf c LShRead = Some c' -> healthy c'.
+Proof.
+  intros (U & R & u & P & F & T & O) H.
+  destruct (view_shread c c' H) as (A & B & C & Py & Ou & Nx).
+  split; [rewrite C; exact U|]. exists R, u. unfold pend in *. rewrite A, B, Py, Ou, Nx. auto.
+Qed.
+
+Lemma healthy_sig c term c' : healthy c -> stepf c (LShSig term) = Some c' -> Inv c'.
+Proof.
+  intros _ H. cbn [stepf] in H. destruct (signalable (sh c)); [|discriminate H]. injection H as <-.
+  left. right. right. unfold drained. cbn [sh p2d]. rewrite drain_stuck; reflexivity.
+Qed.
+
+Lemma map_fst_nil {A B} (l : list (A * B)) : map fst l = [] -> l = [].
+Proof. destruct l; [reflexivity | discriminate]. Qed.
+
+Lemma okh_handle h kt s r u' ch p kill :
+  okh h s (r :: map fst u') = true -> okp kt SMain [] true = true ->
+  handle h kt r ch = (p, kill) ->
+  (kill = true /\ p = PExec GoneExc) \/ (kill = false /\ okst p [] [] s u').
+Proof.
+  intros H K E. destruct r; cbn [okh] in H; try discriminate H; cbn [handle] in E.
+  - (* RPhasesOk *)
+    injection E as <- <-. right. split; [reflexivity|]. apply andb_true_iff in H as [H1 H2].
+    destruct (map fst u') eqn:Eu; [|discriminate H1]. apply map_fst_nil in Eu. subst u'.
+    destruct s; try discriminate H2. cbn [okst]. exists true. auto.
+  - (* RPhasesFail *)
+    injection E as <- <-. right. split; [reflexivity|]. apply andb_true_iff in H as [H1 H2].
+    destruct (map fst u') eqn:Eu; [|discriminate H1]. apply map_fst_nil in Eu. subst u'.
+    destruct s; try discriminate H2. cbn [okst]. exists true. auto.
+  - (* RReqInherit *)
+    apply andb_true_iff in H as [H1 H2].
+    destruct (map fst u') eqn:Eu; [|discriminate H1]. apply map_fst_nil in Eu. subst u'.
+    destruct s; try discriminate H2.
+    destruct ch as [|[|ch]]; injection E as <- <-; [left; auto | right | right];
+      (split; [reflexivity|]); cbn [okst]; exists true; (split; [|reflexivity]); cbn; rewrite K, H2; reflexivity.
+  - (* RReqBashrcs *)
+    apply andb_true_iff in H as [H1 H2].
+    destruct (map fst u') eqn:Eu; [|discriminate H1]. apply map_fst_nil in Eu. subst u'.
+    destruct s; try discriminate H2. destruct h; try discriminate H2.
+    injection E as <- <-. right. split; [reflexivity|]. cbn [okst]. exists true. split; [|reflexivity].
+    apply rc_ok; auto.
+  - (* RReqSbx *)
+    apply andb_true_iff in H as [H1 H2].
+    destruct (map fst u') eqn:Eu; [|discriminate H1]. apply map_fst_nil in Eu. subst u'.
+    destruct s; try discriminate H2.
+    injection E as <- <-. right. split; [reflexivity|]. cbn [okst]. exists true. split; [|reflexivity].
+    apply sbx_ok; auto.
+  - (* RKey *)
+    destruct h; try discriminate H. injection E as <- <-. right. split; [reflexivity|].
+    cbn [okst]. auto.
+  - (* RRecvEnv *)
+    destruct h; try discriminate H. injection E as <- <-. right. split; [reflexivity|].
+    cbn [okst]. auto.
+  - (* RIpc *)
+    destruct s; try discriminate H. destruct h; try discriminate H.
+    injection E as <- <-. right. split; [reflexivity|]. cbn [okst]. exists true. split; [|reflexivity].
+    destruct u' as [|x1 [|x2 [|x3 [|x4 [|x5 [|x6 u']]]]]]; cbn [map List.length Nat.eqb] in H; try discriminate H.
+    destruct ch; cbn; rewrite ?K; reflexivity.
+Qed.
+
+Lemma py_read_plain c r ch :
+  isnotice r = false ->
+  py_read c (Some r) ch =
+  match py c with
+  | PRead1 (_, w) kok kbad => Some (set_py c (PExec (if rep_eqb r w then kok else kbad)))
+  | PCons [] _ _ _ => None
+  | PCons [(_, w)] ok kok kbad => Some (set_py c (PExec (if ok && rep_eqb r w then kok else kbad)))
+  | PCons ((_, w) :: rem) ok kok kbad => Some (set_py c (PCons rem (ok && rep_eqb r w) kok kbad))
+  | PRd k => Some (set_py c (PExec k))
+  | PHand h kt => let '(p, kill) := handle h kt r ch in
+                  Some (mk p (outs c) (if kill then SDead else sh c) (p2d c) (d2p c) (nxt c))
+  | PDie => match r with
+            | RDead => Some (mk (PExec GoneExc) (outs c) SDead (p2d c) (d2p c) (nxt c))
+            | _ => Some (set_py c PDie)
+            end
+  | _ => None
+  end.
+Proof. intro N. destruct r; try discriminate N; reflexivity. Qed.
+
+Lemma healthy_read c r ch c' : healthy c -> stepf c (LR r ch) = Some c' -> Inv c'.
+Proof.
+  intros (U & R & u & P & F & T & O) H. cbn [stepf] in H.
+  destruct (d2p c) as [|[r' g] rest] eqn:Ed; [discriminate H|].
+  destruct (rep_eqb r r') eqn:Er; [|discriminate H]. apply rep_eqb_eq in Er. subst r'.
+  assert (NE : py c <> PErr) by (intro E; rewrite E in O; exact O).
+  set (c0 := mk (py c) (outs c) (sh c) (p2d c) rest (nxt c)) in H.
+  assert (H0 : py_read c0 (Some r) ch = Some c') by (destruct (py c); try exact H; congruence).
+  clear H.
+  destruct (isnotice r) eqn:N.
+  { left. right. left. eapply py_read_notice; eassumption. }
+  rewrite (py_read_plain c0 r ch N) in H0. cbn [c0 py outs sh p2d d2p nxt set_py] in H0.
+  assert (P0 : (r, g) :: pipe c0 = R ++ u).
+  { rewrite <- P. unfold pipe. cbn [c0 sh p2d d2p]. rewrite Ed. reflexivity. }
+  assert (D0 : drained c0 = drained c) by reflexivity.
+  assert (U0 : undrained c0 = undrained c) by reflexivity.
+  unfold pend in F. subst c0.
+  destruct (py c) as [| | |q|[i w] kok kbad|rem ok kok kbad|q|h kt|] eqn:Ep; try discriminate H0;
+    cbn [okst] in O.
+  - (* PRead1 *)
+    destruct O as (Ho & x & -> & O). rewrite Ho in F. cbn [app] in F, P0.
+    injection P0 as <- Pu. injection H0 as <-. right.
+    split; [exact U|]. exists [], u. unfold pend. cbn [py outs nxt set_py]. rewrite Ho.
+    refine (conj _ (conj (Forall2_nil _) (conj T _))); [exact Pu|].
+    cbn [okst]. exists true. split; [exact O | reflexivity].
+  - (* PCons *)
+    destruct O as (Ho & Hr & O1 & O2). rewrite Ho in F. cbn [app] in F.
+    destruct rem as [|[i w] rem']; [contradiction|].
+    inversion F as [|? x ? R' An F']. subst. cbn [app] in P0. injection P0 as <- Pu.
+    destruct rem' as [|e2 rem''].
+    + inversion F'. subst. injection H0 as <-. right.
+      split; [exact U|]. exists [], u. unfold pend. cbn [py outs nxt set_py]. rewrite Ho.
+      refine (conj _ (conj (Forall2_nil _) (conj T _))); [exact Pu|].
+      cbn [okst]. exists true. split; [|reflexivity]. destruct (ok && rep_eqb r w); assumption.
+    + injection H0 as <-. right.
+      split; [exact U|]. exists R', u. unfold pend. cbn [py outs nxt set_py]. rewrite Ho.
+      refine (conj _ (conj F' (conj T _))); [exact Pu|].
+      cbn [okst]. refine (conj eq_refl (conj _ (conj O1 O2))). discriminate.
+  - (* PRd *)
+    destruct O as (Ho & O). rewrite Ho, app_nil_r in F. inversion F. subst R. cbn [app] in P0.
+    destruct u as [|x u']; [discriminate P0|]. injection P0 as <- Pu. injection H0 as <-. right.
+    split; [exact U|]. exists [], u'. unfold pend. cbn [py outs nxt set_py]. rewrite Ho.
+    refine (conj _ (conj (Forall2_nil _) (conj _ _))); [exact Pu | inversion T; assumption|].
+    cbn [okst]. exists true. split; [|reflexivity]. cbn [okp andb] in O. exact O.
+  - (* PHand *)
+    destruct O as (Ho & K & O). rewrite Ho, app_nil_r in F. inversion F. subst R. cbn [app] in P0.
+    destruct u as [|x u']; [discriminate P0|]. injection P0 as <- Pu. cbn [map fst] in O.
+    destruct (handle h kt r ch) as [p kill] eqn:Eh. injection H0 as <-.
+    destruct (okh_handle h kt (drained c) r u' ch p kill O K Eh) as [[-> ->]|[-> Op]].
+    + left. right. left. reflexivity.
+    + right. split; [exact U|]. exists [], u'. unfold pend. cbn [py outs nxt set_py]. rewrite Ho.
+      assert (Fp : Forall2 answers ([] ++ match p with PRead1 w0 _ _ => [w0] | PCons rem _ _ _ => rem | _ => [] end) []).
+      { destruct p as [| | |q|[i w] kok kbad|rem ok kok kbad|q|h' kt'|]; cbn [okst] in Op;
+          try constructor; try contradiction.
+        - destruct Op as (_ & x0 & Hx & _). discriminate Hx.
+        - destruct Op as (_ & _ & _ & _). exfalso.
+          (* handle never returns a PCons *)
+          destruct r; cbn in Eh; try discriminate Eh; try destruct h; try destruct ch as [|[|?]];
+            discriminate Eh. }
+      refine (conj _ (conj Fp (conj _ _))); [exact Pu | inversion T; assumption|].
+      exact Op.
+  - (* PDie *) destruct O.
+Qed.
+
+(* ------------------------------------------------------------------ the invariant is inductive *)
+Lemma Inv_step c l c' : Inv c -> stepf c l = Some c' -> Inv c'.
+Proof.
+  intros [D|Hh] H; [left; eapply disturbed_step; eassumption|].
+  destruct l as [o|cm f|r ch| |e| | | |em|term].
+  - right. eapply healthy_call; eassumption.
+  - eapply healthy_write; eassumption.
+  - eapply healthy_read; eassumption.
+  - (* LEof: the daemon is gone, so the session was disturbed already *)
+    left. eapply disturbed_step; [|exact H]. right. right.
+    cbn [stepf] in H. destruct (d2p c); [|discriminate H]. destruct (sh c) eqn:Es; try discriminate H.
+    unfold drained. rewrite Es, drain_stuck; reflexivity.
+  - eapply healthy_end; eassumption.
+  - right. eapply healthy_tau; eassumption.
+  - destruct Hh as (_ & R & u & _ & _ & _ & O). cbn [stepf] in H.
+    destruct (py c); try discriminate H. destruct O.
+  - right. eapply healthy_shread; eassumption.
+  - eapply healthy_emit; eassumption.
+  - eapply healthy_sig; eassumption.
+Qed.
+
+Lemma Inv_init c : init c -> Inv c.
+Proof.
+  intros [b ->]. right. split; [reflexivity|]. exists [], []. unfold pend. cbn.
+  refine (conj eq_refl (conj (Forall2_nil _) (conj (Forall_nil _) _))).
+  exists true. split; [apply init_ok | reflexivity].
+Qed.
+
+Lemma Inv_reach c : reach c -> Inv c.
+Proof.
+  apply (invariant_by_induction conf label protocol_step init Inv).
+  - exact Inv_init.
+  - intros s l s' HI Hs. eapply Inv_step; eassumption.
+Qed.
+
+(* ------------------------------------------------------------------ die blocks *)
+Lemma wbk_app l : forall i out, wbk i l = true -> wbk false out = true -> wbk i (l ++ out) = true.
+Proof.
+  induction l as [|r l IH]; intros i out H B; cbn [app].
+  - destruct i; [discriminate H | exact B].
+  - destruct r; cbn [wbk] in *; try (apply IH; assumption).
+    apply andb_true_iff in H as [-> H]. cbn [andb]. apply IH; assumption.
+Qed.
+Lemma sreact_balanced s c f s' out : sreact' s c f = Some (s', out) -> wbk false out = true.
+Proof.
+  destruct s; try destruct k; destruct c; destruct f; cbn; intro H; try discriminate H;
+    injection H as <- <-; reflexivity.
+Qed.
+Lemma semit_balanced s e s' out : semit' s e = Some (s', out) -> wbk false out = true.
+Proof.
+  destruct s; try destruct k; destruct e; try destruct ok; cbn; intro H; try discriminate H;
+    injection H as <- <-; reflexivity.
+Qed.
+Lemma map_fst_tag i out : map fst (tag i out) = out.
+Proof. unfold tag. rewrite map_map. cbn [fst]. apply map_id. Qed.
+
+Lemma handle_not_pdie h kt r ch p kill : handle h kt r ch = (p, kill) -> is_pdie p = false.
+Proof.
+  destruct r; cbn; try destruct h; try destruct ch as [|[|?]]; intro H; injection H as <- _; reflexivity.
+Qed.
+
+Lemma Wb_step c l c' : Wb c -> stepf c l = Some c' -> Wb c'.
+Proof.
+  unfold Wb. intros W H. destruct l as [o|cm f|r ch| |e| | | |em|term]; cbn [stepf] in H.
+  - destruct (py c) eqn:Ep; try discriminate H. injection H as <-. cbn [py d2p set_py].
+    destruct W as [W|W]; [discriminate W | right; exact W].
+  - destruct (py c) as [| | |p| | | | |] eqn:Ep; try discriminate H.
+    + injection H as <-. left; reflexivity.
+    + destruct p as [| | | |c0 k| | | |]; try discriminate H.
+      destruct (cmd_eqb cm c0); [|discriminate H]. injection H as <-. cbn [py d2p].
+      destruct W as [W|W]; [discriminate W|]. right.
+      destruct k; try exact W; left; reflexivity.
+  - destruct (d2p c) as [|[r' g] rest] eqn:Ed; [discriminate H|].
+    destruct (rep_eqb r r') eqn:Er; [|discriminate H]. apply rep_eqb_eq in Er. subst r'.
+    destruct (py c) eqn:Ep.
+    2: { injection H as <-. left; reflexivity. }
+    all: destruct W as [W|W]; try discriminate W.
+    all: try discriminate H.
+    all: try (destruct p; discriminate H || discriminate W).
+    all: cbn [map fst wbk is_pdie] in W.
+    all: unfold py_read in H; cbn [py outs sh p2d d2p nxt set_py] in H.
+    all: destruct r; cbn [wbk] in W; try discriminate W; try discriminate H;
+      repeat match type of H with
+             | context [match ?x with _ => _ end] => destruct x eqn:?; try discriminate H
+             end;
+      injection H as <-; cbn [py d2p set_py is_pdie py_ended];
+      try (left; reflexivity); try (right; exact W).
+    all: try (apply andb_true_iff in W as [W1 W2]; discriminate W1).
+    all: match goal with E : handle _ _ _ _ = (?p, _) |- _ => right; rewrite (handle_not_pdie _ _ _ _ _ _ E); exact W end.
+  - destruct (d2p c) eqn:Ed; [|discriminate H]. destruct (sh c); try discriminate H.
+    destruct (py c) eqn:Ep.
+    2: { injection H as <-. left. rewrite Ep. reflexivity. }
+    all: unfold py_read in H; rewrite Ep in H; try discriminate H.
+    all: repeat match type of H with
+                | context [match ?x with _ => _ end] => destruct x eqn:?; try discriminate H
+                end;
+      injection H as <-; cbn [py d2p set_py]; rewrite Ed;
+      destruct W as [W|W]; try discriminate W; try (left; reflexivity); right; exact W.
+  - destruct (py c) as [| | |p| | | | |] eqn:Ep; try discriminate H.
+    + injection H as <-. left. rewrite Ep. reflexivity.
+    + destruct p; try discriminate H.
+      * destruct e as [b'|]; [|discriminate H]. destruct (Bool.eqb b b'); [|discriminate H]. injection H as <-.
+        cbn [py d2p set_py]. destruct alive; [|left; reflexivity].
+        destruct W as [W|W]; [discriminate W | right; exact W].
+      * destruct e; [discriminate H|]. injection H as <-. cbn [py d2p set_py].
+        destruct W as [W|W]; [discriminate W | right; exact W].
+      * destruct e; [discriminate H|]. injection H as <-. left; reflexivity.
+      * destruct e; [discriminate H|]. injection H as <-. left; reflexivity.
+  - destruct (py c) as [| | |p| | | | |] eqn:Ep; try discriminate H.
+    destruct W as [W|W]; [destruct p; try discriminate H; discriminate W|].
+    right. cbn [is_pdie] in W.
+    destruct p; try discriminate H; try destruct async; try destruct (outs c); injection H as <-; exact W.
+  - destruct (py c); try discriminate H. injection H as <-. left; reflexivity.
+  - destruct (p2d c) as [|[[cm i] f] rest]; [discriminate H|].
+    destruct (sreact (sh c) cm f) as [[s' out]|] eqn:E; [|discriminate H]. injection H as <-.
+    cbn [py d2p]. destruct W as [W|W]; [left; exact W|]. right.
+    rewrite map_app, map_fst_tag. apply wbk_app; [exact W|].
+    rewrite sreact_eq in E. eapply sreact_balanced; exact E.
+  - destruct (semit (sh c) em) as [[s' out]|] eqn:E; [|discriminate H]. injection H as <-.
+    cbn [py d2p]. destruct W as [W|W]; [left; exact W|]. right.
+    rewrite map_app, map_fst_untag. apply wbk_app; [exact W|].
+    rewrite semit_eq in E. eapply semit_balanced; exact E.
+  - destruct (signalable (sh c)); [|discriminate H]. injection H as <-.
+    cbn [py d2p]. destruct W as [W|W]; [left; exact W|]. right.
+    rewrite map_app, map_fst_untag. apply wbk_app; [exact W|]. rewrite tok_id. destruct term; reflexivity.
+Qed.
+
+Lemma Wb_reach c : reach c -> Wb c.
+Proof.
+  apply (invariant_by_induction conf label protocol_step init Wb).
+  - intros s [b ->]. right. reflexivity.
+  - intros s l s' HI Hs. eapply Wb_step; eassumption.
+Qed.
